@@ -34,14 +34,17 @@ CLAIMS["C14"] = (
     "top-level token shapes (group contents and literal text invisible); a scan stops only at a first-matching determiner after a "
     "complete operand, never inside an incomplete one, and never reorders or loses tokens; an operand without a top-level split point "
     "followed by [~] operator [>>>] is returned exactly with the flags of exactly that operator (round trip of one unit); whole chains of "
-    "unary operators, operand-less operators, `op >>>` wrappers and `<<<` with arbitrary ~ flags (balanced per step): parse ∘ render = id "
-    "(branch_roundtrip_partial), also for several branches separated by commas and the whole macro input (input_roundtrip_partial); overlapping "
+    "unary operators, operators with several / type operands (`^@ init, f`, `=>[] T`, `<-> A, B, C, D`), operand-less operators, `op >>>` "
+    "wrappers and `<<<` with arbitrary ~ flags (balanced per step): parse ∘ render = id (branch_roundtrip_partial; with `let`: "
+    "branch_roundtrip_let_partial, a non-identifier pattern: branch_other_let_rejected), also for several branches separated by commas, the "
+    "whole macro input (input_roundtrip_partial) and the input with any subset of the options in any order in front "
+    "(input_roundtrip_options_partial); handlers anywhere among the branches: Props/C13 (items_roundtrip_partial); overlapping "
     "operators resolve to the longest documented one for all continuations/spacings; Rust's own shift/comparison/logic/assignment "
     "operators are never DSL operators. Tie: K1-parse (model + syn's answers vs the real parser: outcome class and structure) and a "
     "round-trip oracle on the real parser (structured programs over adversarial operands, rendered and re-parsed).",
     NOTE_COMMON + "syn is an oracle: what it accepts as Expr/Type is computed by the real syn for every compared input and quantified over in "
-    "the theorems; the chain-level round trip with wrappers, =>[], ^@, <->, empty-operand operators, let, several branches, handlers and "
-    "options is decided by the oracle runs on the real parser and by K1-parse (the Lean chain theorem covers the unary operators).",
+    "the theorems (their hypotheses say what syn must answer for the operands: complete, no earlier split point); that the real syn "
+    "answers so for concrete operands is what the round-trip oracle and K1-parse check on the real parser.",
     "Lean 4 proof on a parser model with syn as oracle + K1-parse differential + round-trip oracle on the real parser", "§7 C14")
 CLAIMS["C15"] = (
     "Totality: the model pipeline is a total Lean function whose every expect()/unwrap()/panic! site is an explicit outcome; theorems "
@@ -95,7 +98,10 @@ CLAIMS["C12"] = (REFINE + "Props/C12: every capture of step k sees exactly the n
                  "Lean 4 refinement proof + visibility theorems; K2 snapshots of names in scope", "§7 C12")
 CLAIMS["C13"] = (REFINE + "Props/C13: then/map/and_then semantics of the reference (called exactly once with the values in branch order iff "
                  "applicable, never after a failure); gen returns the rejection exactly for (non-try ∧ map/and_then) and (try ∧ then), ∀ inputs. "
-                 "Second handler: parser oracle in K1. " + K2NOTE, NOTE_COMMON + ASYNC_NOTE + "Awaiting of the handler's value in async macros: K1 tokens only.",
+                 "Parser half (parser model, every syn oracle): one handler definition anywhere among the branches gives the branches in the order written and "
+                 "that handler (handler_anywhere), a second handler definition is rejected wherever the two stand (second_handler_rejected; "
+                 "items_roundtrip_partial). Async: the handler's returned future is part of the poll-level plan (planRun) and of the every-schedule "
+                 "theorems of Props/C09. " + K2NOTE, NOTE_COMMON + ASYNC_NOTE,
                  "Lean 4 refinement + decision theorem for rejections; K1 rejection oracle; K2 handler events", "§7 C13")
 CLAIMS["C18"] = (REFINE + "Props/C18: a panicking chain/capture/handler makes the step and hence the macro panic (sequential: first in branch "
                  "order; threads: at the join of the panicked thread, caller not blocked), and the trace then contains only events of steps up to "
@@ -117,16 +123,21 @@ CLAIMS["C02"] = ("Props/C02 (Lean 4): the wrapper set and wrapper constructors e
                  "nested wrappers against hand-nested closures.",
                  NOTE_COMMON, "Lean 4 proof (stack machine = recursive descent) + table theorems; K1/K2-chains differential", "§7 C02")
 CLAIMS["C15"] = (
-    "Props/C15 (Lean 4) no_internal_bug: for every program whose steps are balanced (no `<<<` without an open `>>>` in the same step) and "
-    "whose members have parser-shaped operand counts, and every macro kind, the generator model returns code or one of the four whitelisted "
-    "configuration rejections — never one of its expect()/unwrap() sites (each is an explicit outcome of the total model). The deciding "
-    "tie for the implementation's parser + generator is K1 with an implementation-side oracle on every generated / mutated / malformed "
+    "Props/C15 (Lean 4) expansion_total: for EVERY token list, every behaviour of syn (oracle) and every macro kind, the pipeline parser "
+    "model → generator model ends with a parser error, one of the whitelisted configuration rejections, or code — never one of the "
+    "generator's expect()/unwrap()/unreachable!() sites (each is an explicit outcome of the total model). Built from parse_wellformed "
+    "(everything the parser accepts has table-shaped members and a per-step `>>>`/`<<<` balance that never goes negative; "
+    "Lemmas/ParseWF) and no_internal_bug (the generator on such programs). expansion_terminates: every loop of the parser (the scan of "
+    "parse_until, the chain builder, the branch/handler loop) consumes at least one token tree per iteration — the model's fuel is never "
+    "used up — given only that syn rejects the empty token stream as an expression (checked against syn on every run). The deciding "
+    "tie for the implementation's parser + generator is K1-parse (parser model + syn's answers vs the real parser) and K1 with an implementation-side oracle on every generated / mutated / malformed "
     "input: no panic other than the whitelisted rejections, every structurally invalid input of the property's list rejected (incl. "
     "duplicated options at every position), every accepted output accepted by syn::parse2::<Expr>, outcome class and tokens = the model's.",
     NOTE_COMMON + "'Valid Rust' is checked with syn's expression grammar, not rustc's; inputs whose member-access operand is not a member "
     "access, whose custom_joiner tokens do not form a call, or whose `let` name is a keyword (syn accepts `let mut let`) are outside the "
-    "quantifier. Termination of the real parser's scan loop is observed, not proved (the parser is not yet modelled in Lean).",
-    "Lean 4 proof (no internal error on balanced inputs) + K1 differential with implementation-side totality oracle", "§7 C15")
+    "quantifier. Termination is a theorem about the parser model (fuel never exhausted), tied to the real loops by K1-parse; syn's own "
+    "termination is assumed.",
+    "Lean 4 proof (totality and termination of parser model + generator model, all token lists) + K1/K1-parse differential with implementation-side totality oracle", "§7 C15")
 CLAIMS["C08"] = ("Props/C08 (Lean 4): a multi-branch step of a thread-spawning macro forks exactly one thread per active branch, named "
                  "<caller>_join_<branch index>, all forks before any join; a single-branch step forks nothing; the barrier theorem over the "
                  "schedule relation Lin: for 'fork all, join all, continue with rest', EVERY global order of events is an interleaving of "
@@ -145,13 +156,15 @@ CLAIMS["C09"] = ("Props/C09 (Lean 4), three layers. (1) Shape, every program: th
                  "built from the parsed program (AsyncSpec.lean), with theorems for EVERY schedule of gate openings (any order, batches, spurious "
                  "polls): nothing before the first poll; each operand advances exactly as far as its own gates allow (a pending branch never "
                  "blocks a ready sibling); a pending future waits on ≥1 gate and only on closed gates (no lost wake-up); canonical run of the plan "
-                 "= reference loop; and for join_async! without handler/panics: once polled with all gates open the future is complete with the "
-                 "generated code's result, having emitted the generated code's events exactly once each (join_async_every_schedule). Tie: K2-async "
+                 "= reference semantics, handler definition and handler call (with the awaited future it returns, with pending points of its own) "
+                 "included (planRun_canon); and for the async macros without panics (try macros: when every chain succeeds): once polled with all "
+                 "gates open the future is complete with the generated code's result, having emitted the generated code's events exactly once "
+                 "each (join_async_every_schedule_handler, try_join_async_every_schedule_handler). Tie: K2-async "
                  "compares the model's predicted events PER POLL with the real future on a deterministic executor under random gate schedules "
                  "(non-spawn kinds, exact), a property-level oracle for the tokio kinds, and K1.",
                  NOTE_COMMON + "Trusted for the run-time clauses: that rustc's async/.await and futures' join!/try_join! behave like Plan.poll/pollStep "
-                 "(validated per poll by K2-async on every run). Partial: the every-schedule theorem covers the non-try async macros; for try_join! plans "
-                 "only the per-poll theorems hold (which failing branch wins is schedule dependent); tokio's scheduler is outside the model.",
+                 "(validated per poll by K2-async on every run, gated handler futures included). Partial: when a chain of a try macro fails, which failing "
+                 "branch wins is schedule dependent and only the per-poll theorems hold; tokio's scheduler is outside the model.",
                  "Lean 4 refinement (canonical schedule) + poll-level scheduling model with ∀-schedule theorems + per-poll K2-async correspondence", "§7 C09")
 CLAIMS["C10"] = ("Props/C10 (Lean 4) + refinement: in the reference loop every reached atom runs exactly once per step (capture events of a step "
                  "are pairwise distinct and exactly the hoisted operands; one chain per active branch; handler defined once, called at most "
@@ -163,10 +176,14 @@ CLAIMS["C10"] = ("Props/C10 (Lean 4) + refinement: in the reference loop every r
 CLAIMS["C16"] = ("Props/C16 (Lean 4, ∀ contexts): the joiner form of every step (custom joiner applied exactly once iff >1 active branches, to "
                  "the active branches' chains in branch order; default tuple / P::join!); operands are `move ||` closures iff lazy ∧ multi; "
                  "option defaults; transpose_results(false) scrutinises every step with match Ok/Err; every futures item prints the configured "
-                 "path. 'Any order and subset, each at most once' is decided on the real parser by K1 over every subset, permutation and "
-                 "duplicate position; K2 compiles programs with a logging joiner macro (count and arity per step, results = default config).",
-                 NOTE_COMMON + "The option loop of the parser is not modelled in Lean; lazy + custom joiner run-time semantics is the joiner's business.",
-                 "Lean 4 theorems on the generator model + K1 exhaustive option enumeration + K2 logging joiner", "§7 C16")
+                 "path. 'Any order and subset, each at most once' is a theorem about the parser model (Lemmas/OptionParse: the option loop — rounds "
+                 "trying the four keywords in a fixed order — equals reading the written options one after the other): options_any_order_subset "
+                 "(pairwise different keywords, arguments that parse ⇒ all accepted, each sets its field, the rest is left for the branches), "
+                 "options_order_irrelevant (two orders of the same options give the same record), option_twice_rejected (a keyword written a "
+                 "second time is rejected with its 'specified twice' error); tied to the real parser by K1 / K1-parse over every subset, permutation "
+                 "and duplicate position; K2 compiles programs with a logging joiner macro (count and arity per step, results = default config).",
+                 NOTE_COMMON + "lazy + custom joiner run-time semantics is the joiner's business.",
+                 "Lean 4 theorems on the generator and parser models + K1 exhaustive option enumeration + K2 logging joiner", "§7 C16")
 CLAIMS["C17"] = ("Props/C17 (Lean 4): Var.render (built from the name-format table regenerated from name_constructors.rs) is injective on the "
                  "internal names for ALL indices (separator lemma excludes __ew1_11_0 = __ew11_1_0) and every internal name starts with `__`; "
                  "size independence and 'nest freely' are the refinement theorem (no bound on branches/steps/operands; the generated code is "
